@@ -347,7 +347,7 @@ def run(rep, tier, seed):
     rep.assumptions = ['fake bucket fidelity (prefix listing in key order, delete of listed keys)',
                        'a key prefix literally named "full" or "metadata" is outside the universe']
     # (saves, re-saves of a stored recording, may the bucket refuse a put?)
-    variants = [(2, 1, True)] if tier == 'quick' else [(3, 0, False), (2, 2, True)]
+    variants = [(2, 0, True), (1, 1, True)] if tier == 'quick' else [(3, 0, False), (2, 1, True)]
     cap = 700 if tier == 'quick' else 100000
     rnd = random.Random(seed + 15)
     all_exh = True
